@@ -30,6 +30,8 @@ def atom_fids(F):
     for adt in UNSIGNED + SIGNED:
         for m in ATOM_METHODS:
             out.add("%s<N>::%s" % (adt, m))
+    for adt in UNSIGNED:
+        out.add("%s<N>::div_rem_unchecked" % adt)
     return out
 
 
@@ -118,6 +120,19 @@ def _wrap_prim(ty, v):
     if ty.startswith("i") and v >> (b - 1):
         v -= 1 << b
     return PI(ty, v)
+
+
+class PanicReached(Exception):
+    def __init__(self, cls, where):
+        Exception.__init__(self, cls)
+        self.cls, self.where = cls, where
+
+
+# terminals (functions with loops) whose documented arithmetic meaning is trusted when a guard depends on
+# their result.  Value-level correctness of these functions is exactly what no rule here decides; the G rows
+# say "assuming these meet their contract, the wrappers around them route as documented".
+ARITH_METHODS = {"overflowing_add", "overflowing_sub", "overflowing_mul", "overflowing_neg", "div_rem_unchecked",
+                 "not", "leading_zeros", "trailing_zeros", "bits", "count_ones", "unsigned_abs"}
 
 
 def ev(t, env, W):
@@ -267,7 +282,11 @@ def _atom(t, env, W):
         return OPAQUE
     name = m.group(1)
     if name not in ATOM_METHODS:
-        return OPAQUE
+        if name in ARITH_METHODS and not m.group(2):
+            r = _arith(name, label, [ev(a, env, W) for a in t[2]], W)
+            if r is not OPAQUE:
+                return r
+        return _descend(label, m.group(2), t, env, W)
     args = [ev(a, env, W) for a in t[2]]
     adt = _adt_of_label(label)
     if adt is None:
@@ -315,6 +334,73 @@ def _atom(t, env, W):
     return OPAQUE
 
 
+def _arith(name, label, args, W):
+    adt = _adt_of_label(label)
+    if adt is None or label.startswith("<") or not args or not isinstance(args[0], BN) or args[0].adt != adt:
+        return OPAQUE
+    w = W.bits(adt)
+    signed = adt in SIGNED
+    lo, hi = (-(1 << (w - 1)), (1 << (w - 1)) - 1) if signed else (0, (1 << w) - 1)
+    x = args[0].v
+    if name in ("overflowing_add", "overflowing_sub", "overflowing_mul"):
+        if len(args) != 2 or not isinstance(args[1], BN) or args[1].adt != adt:
+            return OPAQUE
+        y = args[1].v
+        r = x + y if name == "overflowing_add" else (x - y if name == "overflowing_sub" else x * y)
+        return ("tuple", (W.wrap(adt, r), not (lo <= r <= hi)))
+    if name == "overflowing_neg" and len(args) == 1:
+        r = -x
+        return ("tuple", (W.wrap(adt, r), not (lo <= r <= hi)))
+    if name == "div_rem_unchecked" and not signed and len(args) == 2 and isinstance(args[1], BN) and args[1].adt == adt:
+        if args[1].v == 0:
+            return OPAQUE
+        return ("tuple", (W.wrap(adt, x // args[1].v), W.wrap(adt, x % args[1].v)))
+    if name == "not" and len(args) == 1:
+        return W.wrap(adt, ~x)
+    if name == "unsigned_abs" and signed and len(args) == 1:
+        return W.wrap(TWIN[adt], abs(x))
+    if not signed and len(args) == 1:
+        if name == "leading_zeros":
+            return PI("u32", w - x.bit_length())
+        if name == "bits":
+            return PI("u32", x.bit_length())
+        if name == "trailing_zeros":
+            return PI("u32", w if x == 0 else (x & -x).bit_length() - 1)
+        if name == "count_ones":
+            return PI("u32", bin(x).count("1"))
+    return OPAQUE
+
+
+_DESCEND = None        # set by core: (Summarizer, Facts)
+_DEPTH = [0]
+
+
+def _descend(label, generic_suffix, t, env, W):
+    """Interpret a call of a local wrapper that was too large to inline by walking its own guard tree."""
+    if _DESCEND is None or generic_suffix or _DEPTH[0] > 6:
+        return OPAQUE
+    S, F = _DESCEND
+    root = F.root_of(label)
+    if root is None or not S.is_wrapper(root, as_root=True):
+        return OPAQUE
+    tree = S.summary(root)
+    if tree is None or tree[0] == "?":
+        return OPAQUE
+    env2 = {}
+    for i, a in enumerate(t[2]):
+        env2[i] = ev(a, env, W)
+    _DEPTH[0] += 1
+    try:
+        o, path = outcome(tree, env2, W)
+    finally:
+        _DEPTH[0] -= 1
+    if o[0] == "panic":
+        raise PanicReached(o[1], label)
+    if o[0] == "ret":
+        return o[1]
+    return OPAQUE
+
+
 def _cmp_name(name, x, y):
     if name == "eq":
         return x == y
@@ -338,7 +424,10 @@ def walk(tree, env, W):
     path = []
     t = tree
     while t[0] == "IF":
-        v = ev(t[1], env, W)
+        try:
+            v = ev(t[1], env, W)
+        except PanicReached as e:
+            return ("PANIC", e.cls), None, path + [(("S", "in " + e.where), e.cls)]
         if v is OPAQUE or isinstance(v, tuple):
             return t, t[1], path
         if isinstance(v, bool):
@@ -365,5 +454,8 @@ def outcome(tree, env, W):
     if leaf[0] == "PANIC":
         return ("panic", leaf[1]), path
     if leaf[0] == "RET":
-        return ("ret", ev(leaf[1], env, W), leaf), path
+        try:
+            return ("ret", ev(leaf[1], env, W), leaf), path
+        except PanicReached as e:
+            return ("panic", e.cls), path + [(("S", "in " + e.where), e.cls)]
     return ("unknown", leaf[1]), path
